@@ -39,6 +39,9 @@ class FeatureIDEWriter(ModelToText):
                                        encoding='UTF-8',
                                        method='xml',
                                        xml_declaration=True)
+        # a carriage return inside element text (a <var> naming a feature) would be read back as a
+        # line feed; attribute values are escaped by ElementTree already
+        xml_str = xml_str.replace(b'\r', b'&#13;')
         if self._path is not None:
             with open(self._path, 'wb') as file:
                 file.write(xml_str)
